@@ -996,6 +996,12 @@ fn check_request(out: &mut Out, cx: &SetCtx<'_>, req: &ast::Request, req_text: &
     } else if !differing.is_empty() {
         // invisible in the response (e.g. a permit's outcome masked by a satisfied forbid)
         out.count("policy_outcome_differs_but_response_equal");
+        for c in &causes {
+            out.count(&format!("masked_difference:{}", c.split(';').next().unwrap_or("")));
+        }
+        if causes.iter().any(|c| c.starts_with("UNEXPLAINED")) {
+            out.propfail("a policy evaluates differently over the slice (masked in the response) [cause: UNEXPLAINED]", &describe(), &format!("full: {cf} slice: {cs} differing policies: {} sliced store: {}", differing.join("; "), sx::entities(&sliced).unwrap_or_default()));
+        }
     }
     // non-vacuity
     let ss = store_size(&sliced);
